@@ -22,7 +22,7 @@ func init() {
 			world.FreshDevice()
 			var rows int
 			var trace []string
-			sch := vrt.Run(nil, func(sc *vrt.Sched) { sc.KeepTrace = true }, func() {
+			sch := vrt.Run(nil, func(sc *vrt.Sched) { sc.KeepTrace = true; sc.NoForcedTimers = true }, func() {
 				w, obs := world.Start(world.Config{BackgroundSync: true, WALRotateInterval: 1})
 				if !obs.OK() {
 					trace = append(trace, "start failed: "+obs.String())
